@@ -42,7 +42,7 @@ func newCtx(eng *Engine, mode string) *Ctx {
 		heapSorts: map[string]string{}, hmerge: map[int][]hmEntry{}, hmCache: map[string]string{}}
 	idx := c.idxSort()
 	b := c.byteSort()
-	c.decl("Str", fmt.Sprintf("(declare-datatypes ((Str 0)) (((mkstr (sarr (Array %s %s)) (soff %s) (slen %s)))))", idx, b, idx, idx))
+	c.decl("Str", fmt.Sprintf("(declare-datatypes ((Str 0)) (((mkstr (sarr (Array %s %s)) (soff %s) (slen %s) (sown Int)))))", idx, b, idx, idx))
 	c.decl("Slice", fmt.Sprintf("(declare-datatypes ((Slice 0)) (((mkslice (sbase Int) (xoff %s) (xlen %s) (xcap %s)))))", idx, idx, idx))
 	return c
 }
@@ -333,7 +333,7 @@ func (c *Ctx) strConst(s string) string {
 		// constants are facts: put them in decls so that they are visible to every obligation
 		c.decls = append(c.decls, fmt.Sprintf("(assert (= (select %s %s) %s))", a, c.idxLit(int64(i)), c.byteLit(s[i])))
 	}
-	t := fmt.Sprintf("(mkstr %s %s %s)", a, c.idxLit(0), c.idxLit(int64(len(s))))
+	t := fmt.Sprintf("(mkstr %s %s %s 0)", a, c.idxLit(0), c.idxLit(int64(len(s))))
 	c.strConsts[s] = t
 	return t
 }
